@@ -42,7 +42,7 @@ LEVEL_NOTE = ("Trusted: Coq kernel; AST translator; extraction + driver (cross-c
               "append, whole-process crash, lock semantics. Partial: real kill timing / partial OS writes.")
 TECHNIQUE = "machine-checked proof in Rocq (Coq) of a transition system with crashes + AST re-translation (GenEq) + trace validation with crash injection"
 
-INP = {"s1": 3, "s2": 4, "subject_name": 6, "s0": 1, "s9": 2, "n8": 5, 'q"1': 4, "t\tb": 5}     # the last two: names the tsv writer quotes
+INP = {"s1": 3, "s2": 4, "subject_name": 6, "s0": 1, "s9": 2, "n8": 5, 'q"1': 4, "t\tb": 5, " w1": 3, "w2\n": 4, "w3 ": 5}     # the last two: names the tsv writer quotes
 INITS = [("absent", None), ("empty", None), ("header", None), ("rows", [["s0", 1]]), ("rows", [["s0", 1], ["s9", 2]])]
 STALE = [None, ["zz"], ["s1"]]
 NCTOR = 10
@@ -95,7 +95,7 @@ def run(ctx):
     scens = []
     for init, rows in INITS:
         for stale in STALE:
-            for name in ("s1", "subject_name", 'q"1', "t\tb"):
+            for name in ("s1", "subject_name", 'q"1', "t\tb", " w1", "w2\n", "w3 "):     # the last three: surrounding whitespace (names read from list files)
                 if name != "s1" and (stale is not None or not full and init in ("empty", "header")):
                     continue
                 scens += crash_cases([ev(name)], [0] * 9, init, rows, stale)
@@ -109,7 +109,7 @@ def run(ctx):
     inter2 = list(A.interleavings([9, 9]))
     for sched in rng.sample(inter2, ctx.scale(6, 700)):
         init, rows = rng.choice(INITS)
-        calls = rng.choice([[ev("s1"), ev("s2")], [ev("s1"), ev("s1")], [ev("s1"), ev("s0")], [ev('q"1'), ev('q"1')], [ev("t\tb"), ev("s1")]])
+        calls = rng.choice([[ev("s1"), ev("s2")], [ev("s1"), ev("s1")], [ev("s1"), ev("s0")], [ev('q"1'), ev('q"1')], [ev("t\tb"), ev("s1")], [ev(" w1"), ev("w2\n")], [ev("w3 "), ev("w3 ")]])
         scens += crash_cases(calls, sched, init, rows, rng.choice(STALE))
     for sched in rng.sample(list(A.interleavings([9, 3])), ctx.scale(4, 220)):
         init, rows = rng.choice(INITS)
@@ -208,7 +208,33 @@ def run(ctx):
                                  "an output file named like a sibling's buffer file is emptied by the sibling's constructor (excluded by hypothesis); "
                                  "D10/D11/D13/D17 are fixed in /repo and their witnesses are part of the enumerated layers and corpus/C17")
     ctx.notes["crash_model"] = "threads of a killed session unwind with a BaseException at their current scheduling point; no file operation follows; locks are reset"
+    # ---- sessions in separate interpreter processes (different hash seeds), evaluator with four class groups, kill + restart
+    n_rs = ctx.scale(2, 8)
+    for i in range(n_rs):
+        lines, sq, rep = A.restart_smoke(rng)
+        ctx.count({"restart_smoke": rep.get("killed_after"), "seeds": rep.get("hash_seeds")}, True)
+        ctx.bump("restart in a fresh interpreter process (final file only)")
+        probs = A.restart_smoke_problems(lines, sq, rep)
+        if probs:
+            ctx.violation("kill and restart in a new process: " + "; ".join(probs[:3]),
+                          {"restart_smoke": True, "report": rep, "file": lines, "uninterrupted": sq})
+            break
+    ctx.layers.append({"layer": "kill + restart across interpreter processes with different hash seeds (4 class groups), final file = uninterrupted run",
+                       "runs": n_rs, "exhaustive": False})
+
+
+def replay_restart():
+    import random
+    rc = 0
+    for attempt in range(3):
+        lines, sq, rep = A.restart_smoke(random.Random(attempt))
+        probs = A.restart_smoke_problems(lines, sq, rep)
+        print(f"attempt {attempt + 1} (hash seeds {rep.get('hash_seeds')}):", probs or "final file equals an uninterrupted run")
+        rc |= bool(probs)
+    return rc
 
 
 def replay(path):
+    if json.loads(open(path).read()).get("restart_smoke"):
+        return replay_restart()
     return A.replay_file(path, OP)
